@@ -105,6 +105,74 @@ def c01_pictures(ctx, checks):
             break
 
 
+def c01_asf_plain_values(ctx, checks):
+    """plain Python values set through the tag interface are stored with the attribute type of their Python type
+    (bool -> BOOL, int -> DWORD, str -> UNICODE, bytes -> BYTE ARRAY), singly and in lists, and read back so"""
+    if "C01" not in checks:
+        return
+    kind = KINDS["ASF"]
+    base = [(s_, d) for s_, d in kind.samples() if not s_.startswith("synth")][:2]
+    sets = [("WM/IsCompilation", True, [("bool", True)]), ("WM/Flag0", False, [("bool", False)]), ("WM/Count", 7, [("dword", 7)]),
+            ("WM/Zero", 0, [("dword", 0)]), ("WM/One", 1, [("dword", 1)]), ("WM/Max", 2 ** 32 - 1, [("dword", 2 ** 32 - 1)]),
+            ("WM/Text", "plain \u00fc", [("str", "plain \u00fc")]), ("WM/Blob", b"\x00\x01\xff", [("bytes", b"\x00\x01\xff")]),
+            ("WM/Mixed", [True, 1, "1", b"1", False, 0], [("bool", True), ("dword", 1), ("str", "1"), ("bytes", b"1"), ("bool", False), ("dword", 0)])]
+    for sample, data in base:
+        try:
+            o = kind.open(io.BytesIO(data))
+            for k, v, _ in sets:
+                o.tags[k] = v
+            b = io.BytesIO(data)
+            o.save(b)
+            w_ = kind.walk(b.getvalue())
+        except (mutagen.MutagenError, W.Bad):
+            continue
+        ctx.oracle_cases += 1
+        ctx.count("c01:asf-plain-values")
+        ctx.case(("ASF", sample, "plain-values"))
+        got = {}
+        for _, name, lang, stream, val in w_["tags"]:
+            got.setdefault(name, []).append(val)
+        for k, v, want in sets:
+            if sorted(got.get(k, []), key=repr) != sorted(want, key=repr):
+                _v(ctx, "C01", "ASF: a plain Python value is stored with the wrong attribute type or value", {"kind": "ASF", "sample": sample, "key": k,
+                   "set": repr(v), "stored": repr(got.get(k))[:200], "expected": repr(want)})
+                break
+
+
+def c01_easy_multivalue(ctx, checks):
+    """multi-valued keys through EasyID3: v2.4 keeps the values apart; v2.3 joins them with the chosen separator or keeps them
+    apart when the separator is None - judged by an own frame decoder"""
+    if "C01" not in checks:
+        return
+    from mutagen.easyid3 import EasyID3
+    vals = {"artist": ["AC/DC", "Bj\u00f6rk", "\u5742\u672c \u9f8d\u4e00"], "title": ["one", "two"], "genre": ["Rock", "Pop/Soul"]}
+    fid = {"artist": "TPE1", "title": "TIT2", "genre": "TCON"}
+    for v2, sep in ((4, "/"), (3, "/"), (3, None), (3, "; "), (3, "\\")):
+        try:
+            e = EasyID3()
+            for k, v in vals.items():
+                e[k] = list(v)
+            b = io.BytesIO(b"\xff\xfb\x90\x64" + b"\x00" * 500)
+            e.save(b, v2_version=v2, v23_sep=sep)
+            t = W.id3v2_walk(b.getvalue())
+        except (mutagen.MutagenError, W.Bad):
+            continue
+        ctx.oracle_cases += 1
+        ctx.count("c01:easy-multivalue")
+        ctx.case(("EasyID3", v2, sep))
+        for k, want in vals.items():
+            got = None
+            for f, fl, payload in t["frames"]:
+                if f == fid[k]:
+                    got = W.id3_frame_decode(f, t["version"], fl, payload)
+            exp = want if (v2 == 4 or sep is None) else [sep.join(want)]
+            txt = list(got[3]) if got else None
+            if txt != exp:
+                _v(ctx, "C01", "EasyID3: multi-valued key saved as v2.%d with separator %r is not stored as set" % (v2, sep),
+                   {"kind": "EasyID3", "key": k, "v2": v2, "sep": repr(sep), "stored": repr(txt)[:200], "expected": repr(exp)[:200]})
+                break
+
+
 # ------------------------------------------------------------------------------------------ C09: Easy wrappers
 def c09_easy(ctx, checks):
     """the padding callback is obeyed through the Easy wrappers too (EasyID3 v2.4 and v2.3, EasyMP3, EasyMP4)"""
@@ -656,7 +724,7 @@ OGG_SCENARIOS = (ogg_lacing_sweep, ogg_opus_trailer_sweep, ogg_foreign_paging)
 
 
 def run(ctx, checks, only=None):
-    for fn in only or ((c01_pictures, c09_easy, c08_ape_stale_fragments, c08_id3_delete_options, c02_stray_tag_marker) + OGG_SCENARIOS):
+    for fn in only or ((c01_pictures, c01_asf_plain_values, c01_easy_multivalue, c09_easy, c08_ape_stale_fragments, c08_id3_delete_options, c02_stray_tag_marker) + OGG_SCENARIOS):
         try:
             fn(ctx, checks)
         except Exception as e:
